@@ -46,6 +46,71 @@ def judge_step(ev, i, d0):
     return True, None, None, i + 4
 
 
+def real_round(chk, tc, quick):
+    """the shipped real-world specifications, values = their shipped sample PDUs (vf/realpdu.py): all 25 syntax pairs"""
+    from .. import realpdu
+    nm = realpdu.names(quick)
+    blds = realpdu.make_many(tc, nm)
+    all_pairs = [(a, b) for a in SYNS for b in SYNS]
+    for spec, pdu, syn, label, data in realpdu.samples(tc, nm):
+        b = blds[spec]
+        if b.exe is None:
+            chk.inconcl("shipped specification %s not built (%s)" % (spec, b.error[0]))
+            continue
+        ops, plan = chain_ops(pdu, all_pairs)
+        allops = ["dec s=0 t=%s syn=%s in=%s" % (pdu, syn, drv.hx(data))] + ops
+        r = drv.run_cases(b.exe, [drv.Case(1, allops)], per_case_timeout=300).get(1)
+        replay = {"module": b.text, "options": b.options, "pdu": pdu, "sample": "examples/" + label, "sample_hex": data.hex()[:4000]}
+        if r is None or r.status == "notrun":
+            chk.inconcl("case not run")
+            continue
+        if r.status in ("crash", "hang"):
+            kind, frame = drv.classify_report(r.stderr)
+            chk.evaluations += 1
+            import re as _re
+            m_ = _re.search(r"syn=(\w+)", allops[len(r.events)]) if len(r.events) < len(allops) else None
+            chk.violation({"symptom": r.status, "report": kind, "frame": frame, "kind": "real", "syntax": m_.group(1) if m_ else "-", "fids": []},
+                          "%s during round trip of the shipped sample %s: %s in %s" % (r.status, label, kind, frame),
+                          dict(replay, stderr=r.stderr[-3000:], events=r.events[-6:]))
+            continue
+        ev = r.events
+        if not ev or ev[0].get("rc") != "OK":
+            chk.inconcl("shipped sample %s not decoded (C03)" % label)
+            continue
+        chk.count("real_samples")
+        d0 = ev[1].get("out")
+        failed_first = set()
+        for step, s1, s2, opidx in plan:
+            i = opidx + 1
+            if i + 3 >= len(ev):
+                break
+            if step == "second" and s1 in failed_first:
+                continue
+            ok, sym, detail, _ = judge_step(ev, i, d0)
+            chk.evaluations += 1
+            chk.seen((b.seed, label, s1, s2))
+            syn2 = s2 if step == "second" else s1
+            if ok:
+                chk.count("real_steps_ok")
+                continue
+            if step == "first":
+                failed_first.add(s1)
+            nl = False
+            if sym == "consumed-mismatch" and syn2 == "BXER":
+                e0, d1, c1, e2 = ev[i], ev[i + 1], ev[i + 2], ev[i + 3]
+                if int(e0["rc"]) - int(d1["consumed"]) == 1 and e0.get("out", "").endswith("0a"):
+                    sym = "consumed-short-by-trailing-newline"
+                    nl = c1.get("rc") == "0" and e2.get("out") == d0
+                    if not nl:
+                        sym += "+value-differs"
+            chk.violation({"symptom": sym, "syntax": syn2, "step": step if not nl else "-", "kind": "real" if not nl else "-", "fids": [], "sample": label},
+                          "shipped sample %s (%s): %s -> %s: %s (%s)" % (label, pdu, s1, s2 or "-", sym, detail),
+                          dict(replay, s1=s1, s2=s2, events=ev[i:i + 4]))
+        if int(r.end.get("live", 0) or 0) != 0:
+            chk.violation({"symptom": "leak", "kind": "real", "fids": []},
+                          "ledger: %s allocations still live after freeing all structures of the shipped sample %s" % (r.end.get("live"), label), replay)
+
+
 def run(tier, seed):
     chk = core.Check("C01", tier, seed)
     quick = tier == "quick"
@@ -53,6 +118,7 @@ def run(tier, seed):
     chk.rule = ("generated modules (type algebra of the statement) x boundary-biased values brought in by reference DER; "
                 "for every ordered pair (S1,S2) of {DER,OER,UPER,BASIC-XER,CANONICAL-XER}: v -> enc S1 -> dec S1 -> enc S2 -> dec S2, "
                 "each step judged (rc>=0, RC_OK, consumed==produced, compare_struct==0, DER equal to the DER of v); "
+                "the same chains on the shipped X.509 / LDAP (thorough: UMTS RRC) specifications with their shipped sample PDUs as values; "
                 "ASan+UBSan+ledger build; distinct = distinct (module, type, value, S1, S2)")
     chk.assumptions = ["values enter through ber_decode of the reference DER (entry failures are C03's business and counted inconclusive here)",
                        "types containing constructs with a listed known finding for a syntax are exercised for that syntax only in targeted cases"]
@@ -70,6 +136,7 @@ def run(tier, seed):
     from ..asn import shapes
     builds.append(harness.make(tc, seed * 1000 + 999, prof, module_fn=lambda g: shapes.build("SH")))
     all_pairs = [(a, b) for a in SYNS for b in SYNS]
+    real_round(chk, tc, quick)
     for b in builds:
         if b.exe is None:
             chk.inconcl("module not built (%s)" % b.error[0])
